@@ -1,6 +1,7 @@
 """C06 — no built-in check crashes on valid Python (crash monitor + model correspondence on crashes)."""
 import ast, glob, os
 import common as C
+import metamorph
 
 LEVEL = "proof"
 
@@ -86,7 +87,7 @@ STATEMENTS = [
 ]
 
 
-def run(res, ctx):
+def _run_main(res, ctx):
     rng = C.rng_for(res.seed, "C06")
     thorough = res.tier == "thorough"
     callees = harvest_callees()
@@ -259,3 +260,9 @@ def run(res, ctx):
             d.close()
     res.extra["programs"] = len(valid)
     res.extra["callees"] = len(callees)
+
+
+def run(res, ctx):
+    _run_main(res, ctx)
+    # the neighbourhood of every construct of bandit's example files (harness/metamorph.py): model vs implementation on this family's ids
+    metamorph.family(res, ctx, C, None, 1000, 8000, crash_oracle=True, sweep=True)
